@@ -372,6 +372,7 @@ def _first(u, tol):
 
 
 class Sequences(Sub):
+    fuzz_runs = 20000     # thorough tier: additional coverage-guided (atheris) campaign, same strategy / oracle
     name = "sequences"
     n = {"quick": 6000, "thorough": 150000}
 
